@@ -138,12 +138,13 @@ def run_store(res):
 
 
 def decide(res, pr, bad, new, cases, exe, work, st):
-    unrec = [f for f, s in st.items() if s.get("status") != "ok"]
-    if unrec:
-        res.notes.append("translator did not recognise %s: the property stands on the hand model + correspondence" % unrec)
-    if pr["ok"] and bad == [] and not new:
+    unrec = ["%s (%s)" % (f, s.get("detail", s.get("status"))) for f, s in st.items() if s.get("status") != "ok"]
+    if pr["ok"] and bad == [] and not new and not unrec:
         return
     what = []
+    if unrec:
+        # an unrecognised source shape of a translated function is never a silent fallback
+        what.append("translator does not recognise the source shape: %s" % "; ".join(unrec)[:600])
     if not pr["ok"]:
         what.append("proof obligation no longer checks: %s: %s" % (pr.get("failed_file"), pr.get("error", "")[:400]))
     if bad:
